@@ -338,6 +338,57 @@ PROPS["C12"] = dict(
                  "the proviso of the property (no uncommitted reads, no Get left blocked on a consumer being closed) is built into the model: consumer.Close waits for the consumer mutex"],
 )
 
+_EXCL_C09 = ("still running", "successor cleared before", "work function called before the successor", "did not finish while key 0",
+             "installed a successor although", "cleared an item that is not", "became the runner although")
+def excl_monitor(prop, m, trace):
+    """attribute a broken acceptance of the Exclusive log to the property its first rejected event belongs to"""
+    text = m.get("expected", "") + " " + m.get("observed", "")
+    is09 = any(k in text for k in _EXCL_C09)
+    if prop == "C09":
+        return "the event log shows an overlap / early hand-over the proved model excludes" if is09 else None
+    if is09:
+        return None
+    return "the event log differs from the proved model on attachment, outcome, executed function or clean-up"
+
+_EXCL_RULE = ("exclusive: 2-10 (thorough: up to 27) calls of all styles (Call, CallAfter, CallAsync, Start, StartAfter, CallWithOptions with ExclusiveWork / "
+              "ExclusiveStart / ExclusiveWait) on 1-3 keys of one real Exclusive, each from its own goroutine; harness work functions resolve at once, block on a gate before or "
+              "after resolving (the resolve-to-return gap), resolve twice or return without resolving; the controller releases gates in a PRNG interleaving and, with several keys, "
+              "keeps key 0's work blocked until every caller of the other keys has returned (a blocked key is reported as !stuck); the verif hook events (attach with count, "
+              "escape, deliver, run, swap, work, resolve, returned, clear with count), attributed to calls through the creating goroutine, plus the functions' own events and the "
+              "received outcomes must be accepted step by step by one instance of the Lean transition system per key (item identity, counts, who becomes the runner and when, "
+              "which function runs, every outcome = the model's, exactly one per non-start call, map empty at quiescence)")
+PROPS["C09"] = dict(
+    lean_targets=["BB.Props.C09"],
+    theorems=["BB.Props.C09.single_runner_region", "BB.Props.C09.exclusive_per_key", "BB.Props.C09.start_requires_previous_returned",
+              "BB.Props.C09.successor_blocked_until_clear", "BB.Props.C09.attaches_go_to_successor", "BB.Props.C09.component_reach",
+              "BB.Props.C09.exclusive_every_key", "BB.Props.C09.keys_independent", "BB.Props.C09.keys_commute", "BB.Exclusive.inv_reach"],
+    corr=[dict(family="exclusive", quick=250, thorough=8000, monitor=excl_monitor, no_shrink=True,
+               nontrivial=has("attach_in_resolve_to_return_gap", "first_attach_to_successor", "successor_has_waiters", "other_keys_done_while_key0_busy",
+                              "attach_during_callafter_wait"),
+               rule=_EXCL_RULE + "; non-trivial = a call arriving in the resolve-to-return gap or during a CallAfter wait, a successor with waiters at the hand-over, "
+                    "other keys finishing while key 0 is busy")],
+    assumptions=["sync.Mutex / sync.Cond semantics modelled (a critical section of the item mutex = one step); goroutine scheduling is an arbitrary interleaving of steps",
+                 "keys are modelled as a product of per-key systems: justified by the T1 facts (the map mutex is the only shared lock and is never held across a blocking node) "
+                 "and observed by the two-key runs, not proved from the Go semantics"],
+    open_statements=[],
+)
+PROPS["C10"] = dict(
+    lean_targets=["BB.Props.C10"],
+    theorems=["BB.Props.C10.execution_began_after_call", "BB.Props.C10.answered_by_later_execution", "BB.Props.C10.done_calls_answered",
+              "BB.Props.C10.start_calls_get_no_outcome", "BB.Props.C10.outcome_received_once", "BB.Props.C10.coalesced_identical",
+              "BB.Props.C10.executed_function_supplied", "BB.Props.C10.resolve_not_called", "BB.Props.C10.executions_le_calls",
+              "BB.Props.C10.no_state_remains", "BB.Props.C10.no_deadlock"],
+    corr=[dict(family="exclusive", quick=250, thorough=8000, monitor=excl_monitor, no_shrink=True,
+               nontrivial=has("coalesced", "fn_of_later_caller", "resolve_not_called", "deliver", "start_escape", "key_deleted",
+                              "attach_in_resolve_to_return_gap", "outcome_before_hook", "fewer_executions_than_calls"),
+               rule=_EXCL_RULE + "; non-trivial = coalesced calls, the function of a later caller executed, resolve-not-called, a start-style escape, "
+                    "a call in the resolve-to-return gap answered by the next execution")],
+    assumptions=["sync.Mutex / sync.Cond semantics modelled; the ghost clock orders attach and start-of-execution events (both inside / right after critical sections of the key's mutex)",
+                 "work functions are environment steps: resolve at most once effective (sync.Once modelled), return eventually only where a theorem says so"],
+    open_statements=["'every call receives an outcome' as a leadsTo theorem under weak fairness and returning work functions (proved: no_deadlock = some state-changing step is "
+                     "enabled while any call is unanswered, and done_calls_answered)"],
+)
+
 with_conform(PROPS["C01"], "Buffer")
 with_conform(PROPS["C02"], "Buffer")
 with_conform(PROPS["C03"], "Buffer")
@@ -359,3 +410,5 @@ PROPS["C03"]["corr"].append(_bufconc(["evict_unread", "past_error", "shift", "co
 PROPS["C05"]["corr"].append(_bufconc(["get_pending"]))
 with_conform(PROPS["C04"], "Cleanup", "Buffer", "WaitCond")
 with_conform(PROPS["C12"], "Lifecycle", "Cleanup", "WaitCond", "Channel", "Ctx")
+with_conform(PROPS["C09"], "Exclusive")
+with_conform(PROPS["C10"], "Exclusive")
